@@ -193,7 +193,36 @@ pub fn baseline_headers() -> Vec<Vec<u8>> {
 
 /// Every signature byte replaced by every other value; every truncation of a signature-prefixed input.
 pub fn sig_universe() -> ListUniverse {
+    sig_universe_with(false)
+}
+
+/// `all_pairs`: every pair of positions with every pair of wrong values (4.3 million inputs) instead of equal XOR deltas only.
+pub fn sig_universe_with(all_pairs: bool) -> ListUniverse {
     let mut cases = Vec::new();
+    let full = baseline_headers()[0].clone();
+    for i in 0..12 {
+        for j in i + 1..12 {
+            for d in 1..=255u8 {
+                // the same XOR delta on two bytes (cancels in folded comparisons), and the same wrong value on both
+                let mut c = full.clone();
+                c[i] ^= d;
+                c[j] ^= d;
+                cases.push(c);
+                let mut c = full.clone();
+                c[i] = c[i].wrapping_add(d);
+                c[j] = c[j].wrapping_sub(d);
+                cases.push(c);
+                if all_pairs {
+                    for e in 1..=255u8 {
+                        let mut c = full.clone();
+                        c[i] ^= d;
+                        c[j] ^= e;
+                        cases.push(c);
+                    }
+                }
+            }
+        }
+    }
     let text = b"PROXY UNKNOWN\r\n".to_vec();
     let base = baseline_headers();
     for i in 0..12 {
@@ -230,7 +259,7 @@ pub fn sig_universe() -> ListUniverse {
     cases.dedup();
     ListUniverse {
         name: "U2-sig".into(),
-        what: "each of the 12 signature bytes x 255 wrong values (alone, in two full headers, followed by text); every truncation 0..15 of 5 headers followed by nothing / text / a header".into(),
+        what: "each of the 12 signature bytes x 255 wrong values (alone, in two full headers, followed by text); every pair of signature positions x 255 equal XOR deltas and +d/-d (thorough: x every pair of deltas); every truncation 0..15 of 5 headers followed by nothing / text / a header".into(),
         cases,
     }
 }
@@ -310,6 +339,19 @@ pub fn tlv_byte_universe(n: usize) -> ByteUniverse {
     }
 }
 
+pub const SIGMA_TEXT: &[u8] = &[0x00, 0x02, b'a', b'.', b'-'];
+
+/// Every string over SIGMA_TEXT (NUL, 02, a letter, dot, dash) up to length n, as a TLV section.
+pub fn tlv_text_universe(n: usize) -> ByteUniverse {
+    ByteUniverse {
+        name: "UT-byte/text".into(),
+        split: 2,
+        stems: vec![vec![]],
+        sigma: SIGMA_TEXT.to_vec(),
+        d: n,
+    }
+}
+
 /// Well-formed sequences of 1-3 items with value lengths from a boundary menu, cut at every truncation point.
 pub fn tlv_structured_universe(thorough: bool) -> ListUniverse {
     let lens: Vec<usize> = if thorough { vec![0, 1, 2, 3, 255, 256, 257, 1000] } else { vec![0, 1, 2, 255, 256, 257] };
@@ -366,11 +408,67 @@ pub fn tlv_structured_universe(thorough: bool) -> ListUniverse {
             cases.push(two);
         }
     }
+    // long runs of items (counters, recursion, quadratic behaviour): N items with 0- or 1-byte values
+    for n in [254usize, 255, 256, 257, 258, 300, 512, 1000, 4096] {
+        for vl in [0usize, 1] {
+            let mut sec = Vec::with_capacity(n * (3 + vl));
+            for i in 0..n {
+                sec.push(((i % 5) + 1) as u8);
+                sec.push(0);
+                sec.push(vl as u8);
+                for _ in 0..vl {
+                    sec.push(i as u8);
+                }
+            }
+            cases.push(sec.clone());
+            sec.pop();
+            cases.push(sec);
+        }
+    }
+    // the one nested structure of the specification: PP2_TYPE_SSL = client(1) verify(4) followed by sub-TLVs 0x21..=0x25
+    let subs: Vec<Vec<u8>> = vec![vec![], vec![0x21, 0, 0], vec![0x21, 0, 2, b'1', b'3'], vec![0x22, 0, 1, b'x'], vec![0x25, 0, 0], vec![0x26, 0, 0], vec![0x21, 0, 9, 1]];
+    for a in &subs {
+        for bb in &subs {
+            for client in [0u8, 1, 7] {
+                let mut v = vec![client, 0, 0, 0, 0];
+                v.extend_from_slice(a);
+                v.extend_from_slice(bb);
+                let mut sec = vec![0x20, (v.len() >> 8) as u8, v.len() as u8];
+                sec.extend_from_slice(&v);
+                cases.push(sec.clone());
+                let mut more = vec![0x01, 0, 1, b'h'];
+                more.extend_from_slice(&sec);
+                more.extend_from_slice(&[0x05, 0, 0]);
+                cases.push(more);
+            }
+        }
+    }
+    // grid: every type byte x value lengths around every power-of-two-ish boundary x four fills
+    for k in 0..=255u8 {
+        for l in [4usize, 5, 6, 7, 8, 16, 127, 128, 129, 255, 256, 257] {
+            for fill in 0..4u8 {
+                let mut sec = vec![k, (l >> 8) as u8, l as u8];
+                sec.extend((0..l).map(|i| match fill {
+                    0 => 0u8,
+                    1 => 0xff,
+                    2 => k,
+                    _ => (i as u8).wrapping_mul(7).wrapping_add(k),
+                }));
+                if l <= 8 || fill == 3 {
+                    cases.push(sec.clone());
+                    sec.extend_from_slice(&[4, 0, 0]);
+                    cases.push(sec);
+                } else {
+                    cases.push(sec);
+                }
+            }
+        }
+    }
     cases.sort();
     cases.dedup();
     ListUniverse {
         name: "UT-structured".into(),
-        what: "well-formed sequences of 1-3 items (value lengths 0,1,2,255,256,257[,3,1000]) cut at every truncation point; single items of 65534 / 65535 bytes; every type byte 0..=255 x value lengths 0..=3 (whole, cut by one, followed by further items)".into(),
+        what: "well-formed sequences of 1-3 items (value lengths 0,1,2,255,256,257[,3,1000]) cut at every truncation point; single items of 65534 / 65535 bytes; every type byte 0..=255 x value lengths 0..=3 (whole, cut by one, followed by further items); every type byte x lengths {4..8,16,127,128,129,255,256,257} x fills {00, FF, type byte, pattern}".into(),
         cases,
     }
 }
